@@ -50,6 +50,7 @@ ASSUMPTIONS = ["networks are built the way test_mapping.py builds them: edge geo
 N_VARIANTS = 4
 
 OBLIGATIONS = {
+    "edge_with_repeated_vertex": "a network whose edge geometries carry the same vertex twice in a row was matched",
     "unmatched_observation": "an observation is flagged unmatched",
     "observation_outside_index": "an observation lies outside the extent of the spatial index",
     "observation_on_shared_vertex": "an observation lies on a node shared by >= 2 edges",
@@ -100,11 +101,17 @@ def _oblique_edges():
 
 _CORE = [[(0.0, 0.0), (5.0, 1.0), (10.0, 0.0)], [(10.0, 0.0), (16.0, 8.0)], [(16.0, 8.0), (12.0, 13.0), (6.0, 12.0)]]
 
+# the 3-edge path again, each multi-vertex edge carrying the same vertex twice in a row (two digitised pieces joined):
+# the zero-length segment must not shift the bookkeeping of the segments that follow it
+_DUP = [[(0.0, 0.0), (5.0, 1.0), (5.0, 1.0), (10.0, 0.0)], [(10.0, 0.0), (16.0, 8.0)],
+        [(16.0, 8.0), (16.0, 8.0), (12.0, 13.0), (12.0, 13.0), (6.0, 12.0)]]
+
 LAT7 = {
     "grid": ([-8.0, -2.0, 0.0, 4.0, 10.0, 15.0, 21.0], [-8.0, -2.0, 0.0, 4.0, 10.0, 15.0, 21.0]),
     "skew": ([-8.0, -2.0, 0.0, 4.0, 13.0, 15.0, 26.0], [-8.0, -2.0, 0.0, 4.0, 10.0, 15.0, 21.0]),
     "oblique": ([-12.0, -2.0, 0.0, 8.0, 12.0, 20.0, 31.0], [-14.0, -2.0, 0.0, 3.0, 15.0, 18.0, 31.0]),
     "core": ([-9.0, 0.0, 5.0, 10.0, 13.0, 16.0, 22.0], [-8.0, 0.0, 1.0, 4.0, 8.0, 12.0, 18.0]),
+    "dup": ([-9.0, 0.0, 5.0, 8.0, 13.0, 16.0, 22.0], [-8.0, 0.0, 1.0, 4.0, 8.0, 12.0, 18.0]),
 }
 SUB9 = [(2, 2), (3, 2), (4, 4), (1, 3), (5, 3), (3, 5), (0, 2), (4, 2), (2, 4)]     # indices into the 7x7 lattice
 
@@ -116,6 +123,8 @@ def net_edges(name, drop=None):
         E = _grid_edges(3.0)
     elif name == "oblique":
         E = _oblique_edges()
+    elif name == "dup":
+        E = [list(e) for e in _DUP]
     else:
         E = [list(e) for e in _CORE]
     E = [list(e) for e in E]
@@ -454,6 +463,10 @@ def _plan_variant(variant, deep):
         sh.append({"variant": variant, "net": "core", "drop": None, "orient": list(orient), "res": res_list[0],
                    "radius": 2, "noise": 50, "blocks": ["len1", "len2a", "len2b", "len3"],
                    "full2": deep})
+    # the same path with repeated vertices inside the edge geometries
+    for di in rad_list:
+        sh.append({"variant": variant, "net": "dup", "drop": None, "orient": None, "res": res_list[0], "radius": di,
+                   "noise": 50, "blocks": ["len1", "len2a", "len2b", "len3"], "full2": deep})
     if deep:
         for name, ne in (("oblique", 8), ("skew", 12), ("grid", 12)):
             for drop in range(ne):
@@ -490,6 +503,8 @@ def _sequences(name, blocks, full2):
 
 def run_shard(shard, ctx):
     v = shard["variant"]
+    if shard["net"] == "dup":
+        ctx.oblige("edge_with_repeated_vertex")
     res = RESOLUTIONS[shard["res"]]
     W = World(v, shard["net"], shard["drop"], shard["orient"], res)
     radius = RADII[shard["radius"]]
